@@ -48,7 +48,10 @@ class Ctx:
         f = z3.Function(fresh_name("F_" + name), *(list(arg_sorts) + [ret_sort]))
         xs = [z3.Const("x%d_%s" % (i, name), srt) for i, srt in enumerate(arg_sorts)]
         pats = [f(*xs)] + (list(extra_patterns(*xs)) if extra_patterns else [])
-        ax = z3.ForAll(xs, f(*xs) == body(*xs), patterns=pats)
+        try:
+            ax = z3.ForAll(xs, f(*xs) == body(*xs), patterns=pats)
+        except z3.Z3Exception:      # an explicit post-state term is not a legal trigger (contains ite)
+            ax = z3.ForAll(xs, f(*xs) == body(*xs), patterns=[f(*xs)])
         self.eng.cur_facts.append(ax)
         memo[key] = f
         return f
@@ -97,6 +100,11 @@ class Contract:
 
     def may_raise(self, c0, a):
         """{ExcName: condition}: ExcName may be raised only when condition holds (one direction)."""
+        return {}
+
+    def ghost_witness(self, c0, c1, a, res):
+        """New values of ghost heap fields (e.g. $modpos) in the post-state: {key: array term}.  The ghost
+        key must be listed in modifies."""
         return {}
 
     def before_call(self, callee, c, callee_args):
@@ -377,6 +385,8 @@ class Contract:
                 obls.append(Obligation("raises.%s.required/%s" % (en, tag), s.assumptions(), z3.Not(cond),
                                        info={"path": s.trace}))
             c1 = Ctx(eng, dict(s.heap))
+            for gkey, gterm in self.ghost_witness(c0, c1, a, res).items():
+                c1.heap[gkey] = gterm        # ghost state has no code: the contract supplies the new value
             if self.inout:
                 a = Args(a)
                 for pname in self.inout:
